@@ -157,8 +157,21 @@ def run_scenario(sc):
         code_filter = lambda code: code.co_filename in traced_path  # noqa: E731
     else:
         code_filter = lambda code: code.co_filename in traced_path and code.co_qualname in admit  # noqa: E731
+    # Script the sampling draws wherever the tracer gets them from: the `random` module attribute of
+    # monkeytype.tracing (random.randrange / random.Random() made per tracer), and - for a generator object created
+    # elsewhere in monkeytype, e.g. at import time - random.Random.randrange itself when the caller is monkeytype code.
+    import random as _random_mod
     old_random = mtt.random
-    mtt.random = script.FakeRandom()
+    fake = script.FakeRandom()
+    mtt.random = fake
+    orig_randrange = _random_mod.Random.randrange
+    mt_dir = os.path.dirname(os.path.abspath(mtt.__file__)) + os.sep
+
+    def hooked_randrange(self, *a, **kw):
+        if len(a) == 1 and not kw and sys._getframe(1).f_code.co_filename.startswith(mt_dir):
+            return fake.randrange(a[0])
+        return orig_randrange(self, *a, **kw)
+    _random_mod.Random.randrange = hooked_randrange
     err = "NONE"
     try:
         with mtt.trace_calls(logger, sc["k"], code_filter, sc["rate"] or None):
@@ -170,6 +183,7 @@ def run_scenario(sc):
         err = type(e).__name__
     finally:
         mtt.random = old_random
+        _random_mod.Random.randrange = orig_randrange
     resid = sum(1 for fr in list(tracer.traces) if id(fr) in S.done_ids and id(fr) not in S.frames)
     S.emit(ev="End", resid=resid, flushes=logger.flushes, err=err)
     events = S.events
@@ -265,6 +279,12 @@ def scenario_signature(rec, sc, clause):
                 elif first[x] != 0 and h["draw"] == 0:
                     late = True
         sig["sampled"] = True
+        if not rec.get("draws") and any(e["ev"] in ("Call", "Resume", "Delegate") for e in rec["events"]):
+            # the tracer never asked the scripted RNG (it draws from somewhere the harness does not reach): which call
+            # events were sampled is unknown, so the recorded finding (sampling repeated on every resume) can only be
+            # recognised by its precondition - some generator / coroutine frame received more than one call event
+            sig["rng_unscripted"] = True
+            late = len(first) > 0 and any(sum(1 for h in sc["hist"] if x in (h.get("ch") or [])) > 1 for x in first)
         if clause in ("ArgNames", "ArgTypes", "ReturnAbsentOnException", "ReturnPresent", "ReturnType", "YieldsOnly", "YieldsCovered") and sc["rate"] > 1:
             # which completed call a distorted entry is compared with is ambiguous under sampling
             sig["clause"] = "Faithful"
